@@ -38,7 +38,7 @@ def main():
         props = args[1].split(","); args = args[2:]
     ids = args or sorted(d for d in os.listdir(f"{V}/twins") if os.path.isdir(f"{V}/twins/{d}"))
     fa = e2 = 0
-    with ThreadPoolExecutor(8) as ex:
+    with ThreadPoolExecutor(int(os.environ.get("TWIN_JOBS", "8"))) as ex:
         for tid, out in ex.map(lambda t: one(t, props), ids):
             if not out:
                 print(f"{tid}: silent"); continue
